@@ -31,7 +31,7 @@ func runC02(c *Ctx) {
 	c.Rule("C02-R10", "line accounting: rule line ranges are ordered, the reader consumes whole lines", 12)
 
 	c02Typestate(c)
-	c02Gate(c)
+	c02Gate(c, "C02-R2")
 	c02Assertions(c)
 	c02IndexMinusOne(c)
 	c02NonStrictBounds(c)
@@ -41,6 +41,8 @@ func runC02(c *Ctx) {
 	c02WholeLines(c)
 	c02DerivedFromContent(c)
 	c02Recursion(c)
+	c02AlwaysEnabledFirst(c)
+	c02ExprTypestate(c)
 	c02EmptyReducers(c)
 	c02OptionalPointers(c)
 	c02MustCompile(c)
@@ -227,16 +229,16 @@ func c02Typestate(c *Ctx) {
 	}
 }
 
-func c02Gate(c *Ctx) {
+func c02Gate(c *Ctx, R string) {
 	p := c.P
-	gce := c.MustFunc("C02-R2", "internal/config.Config.GetChecksForEntry")
+	gce := c.MustFunc(R, "internal/config.Config.GetChecksForEntry")
 	if gce == nil {
 		return
 	}
 	info := gce.Pkg.TypesInfo
 	fl := p.NewFlow(gce)
 	sites := fl.FindCalls("internal/config.baseRules", "internal/config.parseRule")
-	c.Check(len(sites) == 2, "C02-R2", "GetChecksForEntry:regular checks built from baseRules and parseRule", gce.Decl.Pos(), "two sites", itoa(len(sites))+" construction sites")
+	c.Check(len(sites) == 2, R, "GetChecksForEntry:regular checks built from baseRules and parseRule", gce.Decl.Pos(), "two sites", itoa(len(sites))+" construction sites")
 	for _, s := range sites {
 		noPathErr := fl.Dominated(s.Site, s.Inner, func(a Atom) bool {
 			x, isNil, ok := nilAtom(info, a)
@@ -246,7 +248,7 @@ func c02Gate(c *Ctx) {
 			x, isNil, ok := nilAtom(info, a)
 			return ok && isNil && fieldSel(info, x, "internal/parser.ParseError", "Err")
 		})
-		c.Check(noPathErr && noRuleErr, "C02-R2", "GetChecksForEntry:"+calleeName(info, s.Inner.(*ast.CallExpr))+" only for error-free entries", s.Inner.Pos(), "dominated by PathError == nil and Rule.Error.Err == nil",
+		c.Check(noPathErr && noRuleErr, R, "GetChecksForEntry:"+calleeName(info, s.Inner.(*ast.CallExpr))+" only for error-free entries", s.Inner.Pos(), "dominated by PathError == nil and Rule.Error.Err == nil",
 			"regular checks are built for an entry that may carry a path or rule error (its Rule has no body: nil dereference in the first check)")
 	}
 	// functions that rely on the typestate (they dereference the rule body unguarded, or return nil for a
@@ -254,7 +256,7 @@ func c02Gate(c *Ctx) {
 	reliant := []string{"internal/parser.Rule.Expr", "internal/parser.Rule.NameNode", "internal/parser.Rule.LastKey", "internal/checks.WholeRuleDiag"}
 	nCalls := 0
 	for _, name := range reliant {
-		rf := c.MustFunc("C02-R2", name)
+		rf := c.MustFunc(R, name)
 		if rf == nil {
 			continue
 		}
@@ -289,16 +291,16 @@ func c02Gate(c *Ctx) {
 					return !isNil && (fieldSel(cinfo, x, "internal/parser.Rule", "AlertingRule") || fieldSel(cinfo, x, "internal/parser.Rule", "RecordingRule"))
 				})
 			}
-			c.Check(ok, "C02-R2", cs.Caller.Name+" calls "+rf.Obj.Name()+" only for rules with a body", cs.Call.Pos(), "dominated by Rule.Error.Err == nil or a body != nil test",
+			c.Check(ok, R, cs.Caller.Name+" calls "+rf.Obj.Name()+" only for rules with a body", cs.Call.Pos(), "dominated by Rule.Error.Err == nil or a body != nil test",
 				rf.Name+" relies on the rule having a body; it is called here for entries that may carry a rule error (body-less rule: nil dereference)")
 		}
 	}
-	c.Ok("C02-R2", "typestate-reliant calls outside the checks enumerated", token.NoPos, itoa(nCalls)+" call(s)")
+	c.Ok(R, "typestate-reliant calls outside the checks enumerated", token.NoPos, itoa(nCalls)+" call(s)")
 	errs := fl.FindCalls("internal/checks.NewErrorCheck")
-	c.Check(len(errs) == 1, "C02-R2", "GetChecksForEntry:error entries get the error check", gce.Decl.Pos(), "NewErrorCheck", "no NewErrorCheck call")
-	if meta := c.MustFunc("C02-R2", "internal/checks.ErrorCheck.Meta"); meta != nil {
+	c.Check(len(errs) == 1, R, "GetChecksForEntry:error entries get the error check", gce.Decl.Pos(), "NewErrorCheck", "no NewErrorCheck call")
+	if meta := c.MustFunc(R, "internal/checks.ErrorCheck.Meta"); meta != nil {
 		v, ok := metaBool(meta, "AlwaysEnabled")
-		c.Check(ok && v, "C02-R2", "ErrorCheck is AlwaysEnabled", meta.Decl.Pos(), "cannot be disabled", "the error check can be disabled: a parse failure produces no report")
+		c.Check(ok && v, R, "ErrorCheck is AlwaysEnabled", meta.Decl.Pos(), "cannot be disabled", "the error check can be disabled: a parse failure produces no report")
 	}
 }
 
@@ -1371,4 +1373,81 @@ func derivedFrom(info *types.Info, fi *FuncInfo, e ast.Expr, obj types.Object, d
 		return true
 	})
 	return found
+}
+
+// c02AlwaysEnabledFirst: a check marked AlwaysEnabled (the parse-error check)
+// cannot be switched off by anything: in config.isEnabled every `return false`
+// lies behind the false edge of `check.Meta().AlwaysEnabled`. Otherwise a
+// `# pint disable yaml/parse` comment (kept on a broken rule) removes the only
+// report of a parse failure and lint exits cleanly on a file Prometheus rejects.
+func c02AlwaysEnabledFirst(c *Ctx) {
+	p := c.P
+	ie := c.MustFunc("C02-R2", "internal/config.isEnabled")
+	if ie == nil {
+		return
+	}
+	fl := p.NewFlow(ie)
+	rets := fl.Find(func(n ast.Node) bool {
+		r, ok := n.(*ast.ReturnStmt)
+		return ok && len(r.Results) == 1 && exprStr(r.Results[0]) == "false"
+	})
+	bad := ""
+	for _, r := range rets {
+		ok := fl.Dominated(r.Site, nil, func(a Atom) bool {
+			sel, isSel := ast.Unparen(a.E).(*ast.SelectorExpr)
+			return isSel && !a.Truth && sel.Sel.Name == "AlwaysEnabled"
+		})
+		if !ok {
+			bad = p.Pos(r.Inner.Pos())
+		}
+	}
+	c.Check(len(rets) >= 2 && bad == "", "C02-R2", "isEnabled:nothing disables an AlwaysEnabled check", ie.Decl.Pos(), itoa(len(rets))+" negative exits, all behind !AlwaysEnabled",
+		"isEnabled can return false at "+bad+" before (or without) looking at AlwaysEnabled: the always-enabled parse-error check can be disabled or snoozed, so a rule that fails to parse is reported nowhere")
+}
+
+// c02ExprTypestate: a PromQLExpr leaves its constructor either with a parsed
+// query or with a syntax error; checks rely on `SyntaxError == nil ⇒ Query !=
+// nil`. Every return of newPromQLExpr passes a store to Query or SyntaxError.
+func c02ExprTypestate(c *Ctx) {
+	p := c.P
+	fi := c.MustFunc("C02-R1", "internal/parser.newPromQLExpr")
+	if fi == nil {
+		return
+	}
+	info := fi.Pkg.TypesInfo
+	fl := p.NewFlow(fi)
+	isStore := func(n ast.Node) bool {
+		found := false
+		inspectNoLit(n, func(m ast.Node) bool {
+			as, ok := m.(*ast.AssignStmt)
+			if !ok {
+				return true
+			}
+			for i, l := range as.Lhs {
+				sel, ok := l.(*ast.SelectorExpr)
+				if !ok || fieldOwner(info, sel) != "internal/parser.PromQLExpr" || (sel.Sel.Name != "Query" && sel.Sel.Name != "SyntaxError") {
+					continue
+				}
+				r := as.Rhs[0]
+				if i < len(as.Rhs) {
+					r = as.Rhs[i]
+				}
+				if !isNilIdent(info, r) {
+					found = true
+				}
+			}
+			return true
+		})
+		return found
+	}
+	rets := fl.Find(func(n ast.Node) bool { _, ok := n.(*ast.ReturnStmt); return ok })
+	bad := ""
+	for _, r := range rets {
+		target := r.Site
+		if ok, _ := fl.MustPass(fl.Entry(), func(s Site) bool { return s == target }, false, isStore); !ok {
+			bad = p.Pos(r.Inner.Pos())
+		}
+	}
+	c.Check(len(rets) >= 1 && bad == "", "C02-R1", "newPromQLExpr:every result has a parsed query or a syntax error", fi.Decl.Pos(), itoa(len(rets))+" return(s)",
+		"newPromQLExpr can return at "+bad+" with neither Query nor SyntaxError set: checks that only test SyntaxError == nil dereference the nil query (e.g. an expr that is a single space)")
 }
